@@ -117,11 +117,11 @@ class Rule:
                     for k, v in self.cast.items():
                         if isinstance(datum, k):
                             try:
-                                datum = v(datum)
-                                break
+                                cast_datum = v(datum)
                             except (TypeError, ValueError):
-                                pass
-                    set_datum(data_copy, datum_path, datum)
+                                continue
+                            set_datum(data_copy, datum_path, cast_datum)
+                            break
 
         return RuleTest(self, data_copy)
 
